@@ -482,15 +482,19 @@ pub fn c02(ctx: &Ctx) -> Report {
     let sizes: Vec<usize> = vec![0, 1, 3, 8192];
     let mut cases: Vec<(Case, u64)> = Vec::new();
     let mut rank = 0u64;
+    // the long decorations (20 leading zeros, a 128-byte size line) make every size line a wire of
+    // its own length: they are run on payloads of at most 2 bytes, where the number of (fault offset,
+    // extra cut) pairs stays in the millions
     let decos: &[Deco] = match tier {
         Tier::Quick => &[Deco::Plain, Deco::ExtVal],
-        Tier::Thorough => &ALL_DECOS,
+        Tier::Thorough => &[Deco::Plain, Deco::Upper, Deco::LeadingZeros, Deco::Ext, Deco::ExtVal, Deco::SpaceBeforeCrlf, Deco::ExtObsText],
     };
     let mut wires = small_wires(max_len, decos, false);
-    if tier == Tier::Quick {
-        // size lines with more hex digits than a 64-bit number has (thorough: all decorations anyway)
-        wires.extend(small_wires(2, &[Deco::ManyZeros], false).into_iter().filter(|w| w.framing == Framing::Chunked));
-    }
+    let long_decos: &[Deco] = match tier {
+        Tier::Quick => &[Deco::ManyZeros],
+        Tier::Thorough => &[Deco::ManyZeros, Deco::Line128],
+    };
+    wires.extend(small_wires(2, long_decos, false).into_iter().filter(|w| w.framing == Framing::Chunked));
     // one wire through the 64 KiB refill path
     wires.push(WireSpec {
         framing: Framing::Chunked,
@@ -544,7 +548,7 @@ pub fn c02(ctx: &Ctx) -> Report {
                 // one extra cut anywhere before the fault (thorough: two)
                 for c in body_start.saturating_sub(2).max(1)..at {
                     v.push(Policy { cuts: vec![c], uniform: None });
-                    if tier == Tier::Thorough && w.len <= 3 {
+                    if tier == Tier::Thorough && w.len <= 3 && total - body_start <= 48 {
                         for c2 in c + 1..at {
                             v.push(Policy { cuts: vec![c, c2], uniform: None });
                         }
